@@ -15,7 +15,7 @@ def grammar_cases(draw, methods=None, modes=None, max_batch=6):
     exc = draw(st.sampled_from([0, 0, 0, 0, 1, 2, 3, 4, 5, 6, 7, 8, 9, 10]))
     if exc and methods is None:
         # what the failing callable raises only matters when it is called
-        methods = st.sampled_from(["boom", "boom", "boom", "echo", "ident", "nope"])
+        methods = st.sampled_from(["boom", "boom", "boom", "echo", "ident", "nope", "nonjson", "badkeys"])
     return {
         "exc": exc,
         "body": draw(reqgen.bodies(methods, max_batch)),
@@ -24,14 +24,14 @@ def grammar_cases(draw, methods=None, modes=None, max_batch=6):
         "mode": draw(st.sampled_from(modes or MODES)),
         "ascii": draw(st.booleans()),
         # one case in three runs on a server whose Config carries a handler table
-        "handlers": draw(st.one_of(st.none(), st.none(), st.sampled_from(sorted(refmodel.HANDLER_TABLES)))),
+        "handlers": draw(gen.pick(st.none(), st.none(), st.sampled_from(sorted(refmodel.HANDLER_TABLES)))),
     }
 
 
 @st.composite
 def damage_cases(draw):
     return {
-        "body": draw(st.one_of(reqgen.damaged_texts(), reqgen.damaged_texts(), reqgen.arbitrary_texts)),
+        "body": draw(gen.pick(reqgen.damaged_texts(), reqgen.damaged_texts(), reqgen.arbitrary_texts)),
         "version": draw(st.sampled_from([1.0, 2.0])),
         "jsonclass": draw(st.booleans()),
         "mode": draw(st.sampled_from(MODES)),
